@@ -242,7 +242,7 @@ fn kernels(k: &mut Kernels, rng: &mut Rng, thorough: bool) {
         }
     };
     let extra = [i32::MIN, i32::MAX, 0, 1, -1, 64, -64, 65536, -65536, 32768, -32768, i32::MIN + 1, 0x4000, -0x4000];
-    let sub: Vec<i32> = grid.iter().cloned().step_by(if thorough { 3 } else { 8 }).chain(extra).collect();
+    let sub: Vec<i32> = grid.iter().cloned().step_by(if thorough { 3 } else { 11 }).chain(extra).collect();
     // binary kernels
     for op in [1i64, 2, 5, 18, 19] {
         for a in &sub {
@@ -252,7 +252,7 @@ fn kernels(k: &mut Kernels, rng: &mut Rng, thorough: bool) {
                 }
             }
         }
-        for _ in 0..1200 * mult {
+        for _ in 0..800 * mult {
             let (a, b) = (any(rng, &grid), any(rng, &grid));
             k.emit(op, vec![a, b]);
         }
@@ -275,7 +275,7 @@ fn kernels(k: &mut Kernels, rng: &mut Rng, thorough: bool) {
     let sub3: Vec<i32> = grid
         .iter()
         .cloned()
-        .step_by(if thorough { 12 } else { 29 })
+        .step_by(if thorough { 12 } else { 45 })
         .chain([i32::MIN, i32::MAX, 0, 1, -1, 64, -64, i32::MIN + 1])
         .collect();
     for op in [3i64, 4] {
@@ -286,7 +286,7 @@ fn kernels(k: &mut Kernels, rng: &mut Rng, thorough: bool) {
                 }
             }
         }
-        for _ in 0..1500 * mult {
+        for _ in 0..1200 * mult {
             let v = vec![any(rng, &grid), any(rng, &grid), any(rng, &grid)];
             k.emit(op, v);
         }
@@ -674,7 +674,7 @@ fn main() {
         "From Coq Require Import ZArith List. Import ListNotations. Open Scope Z_scope.\nFrom FV Require Import Lib.Cases C03.Model.",
         "Z * list Z * list Z * list Z",
         "check_case",
-        3500,
+        2400,
     );
     let mut k = Kernels { st, cw };
     kernels(&mut k, &mut rng, thorough);
